@@ -417,6 +417,7 @@ class SimMinimizer:
         self.fired: Dict[str, int] = {k: 0 for k in FAULTS}
         self.evals = 0
         self.budget_hits = 0
+        self.interrupted = False
 
     def approx_fprime(self, xk, f, *a, **k):
         # the sensitivity probe may meet a degenerate cell too (the quality measure raises
@@ -458,7 +459,11 @@ class SimMinimizer:
         mode = "real"
         if fs.random() < self.rate:
             mode = fs.pick(FAULTS[1:])
-        self.fired[mode] += 1
+        if self.rate and not self.interrupted and Stream(self.seed, "interrupt", self.calls).random() < self.rate * 0.06:
+            # the user's Ctrl+C arrives while the solver runs (after one or two of its evaluations)
+            mode = "interrupt"
+            self.interrupted = True
+        self.fired[mode] = self.fired.get(mode, 0) + 1
         w = seams.CURRENT
         if w is not None:
             w.event("minimize", self.calls, mode)
@@ -475,6 +480,9 @@ class SimMinimizer:
                 self.evals += 1
             return x
 
+        if mode == "interrupt":
+            wander(x0, fs.randint(1, 2))
+            raise KeyboardInterrupt()
         if mode == "stall":
             return OptimizeResult(x=x0, success=False, message="simulated stall")
         if mode == "wander":
@@ -721,6 +729,10 @@ def run_scenario(sc: Dict[str, Any], clock_plan: Optional[str] = None, max_evals
             if orig_rb is not None and orig_sk is not None:
                 undo.append(seams.patch_attr(cod, "rollback", rb))
                 undo.append(seams.patch_attr(cod, "skip", sk))
+            def model_positions():
+                return np.array([v.position for v in mesh.vertices]) if mesh is not None else np.array(sketch.positions)
+
+            model_before = model_positions()
             try:
                 if sc.get("auto") and sketch is not None:
                     opt.auto_optimize(max_iterations=sc["iterations"], tolerance=1e-9, method=sc["method"])
@@ -729,10 +741,24 @@ def run_scenario(sc: Dict[str, Any], clock_plan: Optional[str] = None, max_evals
                     if sc.get("repeat"):
                         stats["repeated_optimize"] = 1
                         q_mid = float(grid.quality)
+                        model_before = model_positions()
                         opt.optimize(max_iterations=sc["iterations"], tolerance=1e-9, method=sc["method"])
                         q_end = float(grid.quality)
                         if q_end > q_mid * (1 + 1e-6) + 1e-9:
                             bad("second-optimize-worsened", f"a second optimize() on the same optimizer took the summed quality from {q_mid:.10g} to {q_end:.10g}")
+            except KeyboardInterrupt:
+                # the interrupt reached the caller: nothing of the unfinished run may have been copied to the model
+                # (had optimize() returned normally instead, the usual oracles below would judge what it left)
+                stats["interrupted_runs"] = 1
+                got = model_positions()
+                if got.shape != model_before.shape or not np.array_equal(got, model_before):
+                    k = int(np.argmax(np.abs(got - model_before).max(axis=1))) if got.shape == model_before.shape else -1
+                    bad("interrupted-half-applied", f"optimize() was interrupted inside the solver and the model was changed all the same (vertex {k})")
+                stats["minimizer_calls"] = sim.calls
+                stats["objective_evaluations"] = sim.evals
+                for k_, v_ in sim.fired.items():
+                    stats["solver:" + k_] = v_
+                return {"violations": viols, "stats": stats, "log": digest(world.log), "final": None, "sim": sim}
             except Exception as e:
                 bad("optimize-raised", f"optimize() raised {type(e).__name__}: {str(e)[:200]}")
                 return {"violations": viols, "stats": stats, "log": digest(world.log), "final": None, "sim": sim}
@@ -878,6 +904,6 @@ def shrink_candidates(rp):
 
 def extra_coverage(results: List[Dict[str, Any]]) -> Dict[str, Any]:
     sim_time = sum(r.get("stats", {}).get("sim_time_s", 0) for r in results)
-    kinds = {k: sum(r.get("stats", {}).get("solver:" + k, 0) for r in results) for k in FAULTS}
+    kinds = {k: sum(r.get("stats", {}).get("solver:" + k, 0) for r in results) for k in FAULTS + ["interrupt", "probe_degenerate"]}
     return {"sim_time_s": sim_time, "simulated_time": f"{sim_time} simulated seconds read through the clock seam (plans: steady, jump forward, jump backward, frozen)",
             "solver_calls_by_mode": kinds}
